@@ -99,6 +99,44 @@ def unfold(terms, rounds=3):
     return facts
 
 
+_SQ_CACHE: dict = {}
+
+
+def _mentions_sq(t) -> bool:
+    k = t.get_id()
+    if k in _SQ_CACHE:
+        return _SQ_CACHE[k][1]              # the entry keeps the term alive: z3 recycles ids of freed terms
+    r, seen, stack = False, set(), [t]
+    while stack:
+        x = stack.pop()
+        if x.get_id() in seen:
+            continue
+        seen.add(x.get_id())
+        if z3.is_quantifier(x):
+            stack.append(x.body())
+            continue
+        if z3.is_app(x):
+            if x.decl().kind() == z3.Z3_OP_UNINTERPRETED:
+                nm = x.decl().name()
+                if nm.startswith("sq") or "_sq" in nm or nm.endswith(".lead"):
+                    r = True
+                    break
+            stack.extend(x.children())
+    _SQ_CACHE[k] = (t, r)
+    return r
+
+
+def _conjuncts(terms):
+    out, stack = [], list(reversed(terms))
+    while stack:
+        x = stack.pop()
+        if z3.is_and(x):
+            stack.extend(reversed(x.children()))
+        else:
+            out.append(x)
+    return out
+
+
 class Conj(list):
     """Labelled conjunction [(label, Bool)]: assumed as a whole, proved conjunct by conjunct."""
 
@@ -255,7 +293,12 @@ class C02Executor(Executor):
             return super().add_vc(kind, label, [], goal, note, loc)
         base = list(pc)
         facts = unfold(base + [goal])
-        super().add_vc(kind, label, base + facts + T.GLOBAL_AXIOMS + self.extra_axioms, goal, note, loc)
+        hyps = base + facts + T.GLOBAL_AXIOMS + self.extra_axioms
+        if not _mentions_sq(goal):
+            # a goal about the nw image does not need the hypotheses about the sq image (dropping hypotheses is sound;
+            # it keeps z3's sequence solver from wandering: measured 10 s -> 0.1 s)
+            hyps = [h for h in _conjuncts(hyps) if not _mentions_sq(h)]
+        super().add_vc(kind, label, hyps, goal, note, loc)
 
     # -- truth / len -------------------------------------------------------------------
     def truth(self, st, v):
@@ -495,6 +538,11 @@ class C02Executor(Executor):
             if getattr(maker, "slist", False) and nme in amap:
                 if not self.to_slist(st, amap[nme]):
                     raise Unsupported(f"{self.loc(node)} argument {nme} of {c.target} is not a list of str")
+        compact = getattr(c, "compact_ensures", None)
+        if compact is not None:
+            # the case-split postcondition (one obligation id per case) is assumed at call sites in its equivalent unsplit form
+            import dataclasses
+            c = dataclasses.replace(c, ensures=compact)
         res = super().apply_contract(st, c, args, kwargs, node)
         if not res and not c.raises and not c.may_raise_any:
             raise Unsupported(f"{self.loc(node)} contract of {c.target} leaves no outcome (infeasible post-state)")
@@ -539,7 +587,8 @@ def m_join(ex, st, args, kwargs, node):
     r = z3.String(fresh_name("joined"))
     if c is not None and c.strip() == "":
         st.assume(NW(r) == NW(d["cat"]))
-        st.assume(z3.If(d["n"] == 0, r == lit(""), SQ_cat(lit(" "), SQ(r)) == d["lead"]))
+        st.assume(z3.Implies(d["n"] == 0, r == lit("")))
+        st.assume(z3.Implies(d["n"] > 0, SQ_cat(lit(" "), SQ(r)) == d["lead"]))
     return [(st, VStr(r))]
 
 
